@@ -8,16 +8,17 @@ S3  a generator draws the ABSTRACT syntax of class texts (component clauses with
     (a) ORACLE: the observed tree against the abstract syntax, read as the property says (expect()).
     (b) CORRESPONDENCE: Coq `run_file` on the abstract syntax == the observation (vm_compute), including the
         order numbers and the identity pattern of the prefixes / dimensions / type objects.
-    Three fixed probe texts decide which modelled variant of the code is running (current / repaired, per
-    defect); deviations of the current code are known findings with narrow tags (findings/known.d/C04.json).
+    The model variant is `head_variant` (/repo HEAD).  Three defects this check found (repeated section labels,
+    clause-over-declarator dimensions, import lists of 3+ names) are repaired in /repo; the oracle still gives
+    them their own tags, so a regression is reported with the narrow description.
 """
 import json
 
 from . import core
 from .core import cq_bool, cq_list
 
-THEOREMS = ["C04_symbols", "C04_sections", "C04_duplicate", "C04_order_partial", "C04_no_sharing_partial",
-            "C04_ideal", "C04_visibility_refuted", "C04_dimensions_refuted", "C04_example"]
+THEOREMS = ["C04_symbols", "C04_sections", "C04_duplicate", "C04_order", "C04_no_sharing", "C04_variants",
+            "C04_visibility_refuted", "C04_dimensions_refuted", "C04_import_refuted", "C04_example"]
 PREAMBLE = ("From Coq Require Import String List Bool.\nFrom PV Require Import Model.C04_listener.\n"
             "Import ListNotations.\nOpen Scope string_scope.\n")
 CASE_TYPE = "variant * list element * obs"
@@ -26,10 +27,6 @@ TAG_VIS = "repeated-section-visibility"
 TAG_DIMS = "clause-dimensions-override-declarator-dimensions"
 TAG_IMP = "import-list-tail-joined"
 VIS = {"unl": 0, "pro": 1, "pub": 2}          # ast.Visibility: unlabelled elements are PRIVATE = 0
-
-PROBE_VIS = "model P public Real a; extends E; protected Real b; public Real c; protected Real d; end P;"
-PROBE_DIMS = "model P Real[2] a[3], b; end P;"
-PROBE_IMP = "model P import A.{C,D,E}; end P;"
 
 
 # =============================================================================================
@@ -750,20 +747,6 @@ def eval_cases(ctx, label, triples, shard=60, workers=4):
 
 
 # =============================================================================================
-def detect_variant(pr):
-    """which modelled variant of the code is running (three fixed probes)"""
-    v = {"allsec": False, "dimsmerge": False, "implist": False}
-    try:
-        s = {x["name"]: x for x in pr[0]["classes"][0]["symbols"]}
-        v["allsec"] = s["a"]["vis"] == 2 and s["b"]["vis"] == 1
-        s = {x["name"]: x for x in pr[1]["classes"][0]["symbols"]}
-        v["dimsmerge"] = s["a"]["dims"] == [["3", "2"]]
-        v["implist"] = [k for k, _ in pr[2]["classes"][0]["imports"]] == ["C", "D", "E"]
-    except (KeyError, IndexError, TypeError):
-        pass
-    return v
-
-
 def run(ctx):
     core.check_props(ctx, "C04.v", THEOREMS)
     fp, n = core.fingerprint(core.REPO + "/src/pymoca/parser.py", {"ASTListener"})
@@ -774,12 +757,8 @@ def run(ctx):
     n_corpus = len(files)
     for _ in range(ctx.scaled(400, 3000)):
         files.append(g.file())
-    cases = [{"text": t} for t in (PROBE_VIS, PROBE_DIMS, PROBE_IMP)] + [{"text": pr.file(f)} for f in files]
+    cases = [{"text": pr.file(f)} for f in files]
     results = core.run_child(ctx, "c04", cases, timeout=3000)
-    var = detect_variant(results[:3])
-    ctx.notes["code_variant"] = var
-    results = results[3:]
-    cases = cases[3:]
     # (a) oracle
     n_rej = 0
     distinct = set()
@@ -791,7 +770,7 @@ def run(ctx):
         if sum(len(e["decls"]) for cl in f for it in cl["items"] if it[0] == "sec" for e in it[2] if e["k"] == "comp") >= 2:
             distinct.add(c["text"])
     # (b) correspondence
-    cqv = "(mkV %s %s %s)" % (cq_bool(var["allsec"]), cq_bool(var["dimsmerge"]), cq_bool(var["implist"]))
+    cqv = "head_variant"
     idx = [i for i, r in enumerate(results) if encodable(r)]
     bad = eval_cases(ctx, "listener", [(cqv, files[i], results[i]) for i in idx])
     not_enc = [i for i, r in enumerate(results) if not encodable(r)]
@@ -802,7 +781,7 @@ def run(ctx):
         j = idx[bad[0]] if bad else (not_enc[0] if not_enc else 0)
         core.violation(ctx, "correspondence-broken",
                        {"correspondence": "Model/C04_listener.v run_file vs pymoca.parser.parse",
-                        "variant": var, "input": {"text": cases[j]["text"], "syntax": files[j]},
+                        "variant": "head_variant", "input": {"text": cases[j]["text"], "syntax": files[j]},
                         "observed": results[j]}, no_input=True)
     # S4 known findings
     def still_fails(e):
